@@ -39,11 +39,22 @@ func (pool) Flush()                                    {}
 func (pool) RegisterFilter(types.IFilter)              {}
 func (pool) GetPendingMaxNonce([]byte) (uint64, error) { return 0, nil }
 
-type exec struct{}
+// PowerChange: the application changes the voting power of validator Idx at the end of a block.
+type PowerChange struct {
+	Idx   int
+	Power int64
+}
+
+type exec struct{ c *Chain }
 
 func (exec) BeginBlock(*types.Block, events.Fireable, *types.PartSetHeader) error { return nil }
 func (exec) ExecBlock(*types.Block, events.Fireable, *types.ExecuteResult) error    { return nil }
-func (exec) EndBlock(*types.Block, events.Fireable, *types.PartSetHeader, []*types.ValidatorAttr, *types.ValidatorSet) error {
+func (e exec) EndBlock(b *types.Block, _ events.Fireable, _ *types.PartSetHeader, _ []*types.ValidatorAttr, next *types.ValidatorSet) error {
+	if ch, ok := e.c.Changes[b.Height]; ok {
+		_, v := next.GetByAddress(e.c.Addr(ch.Idx))
+		v.VotingPower = ch.Power
+		next.Update(v)
+	}
 	return nil
 }
 
@@ -53,6 +64,7 @@ type Chain struct {
 	Keys   []crypto.PrivKeyEd25519 // in address order
 	Privs  []*types.PrivValidator  // in address order (file-backed for `Me`)
 	Powers []int64
+	Changes map[int64]PowerChange // validator power updates applied by EndBlock of that height
 	Me     int
 	CS     *pbft.ConsensusState
 	Ticker *pbft.VerifTicker
@@ -114,7 +126,7 @@ func NewChain(powers []int64, me int, skipTimeoutCommit bool) *Chain {
 }
 
 func (c *Chain) start(state *sm.State) {
-	state.SetBlockExecutable(exec{})
+	state.SetBlockExecutable(exec{c})
 	cs := pbft.NewConsensusState(c.conf, state, c.Store, pool{})
 	if cs == nil {
 		panic("NewConsensusState failed")
